@@ -238,7 +238,13 @@ struct PolicyMon {
     /// counts only calls matched by `only` when given
     sb: PathBuf,
     attack_log: Vec<Value>,
+    /// set when one operation has issued so many calls that it is taken to be looping on the injected fault:
+    /// from then on nothing is injected any more, so that the operation (and the driver) can end
+    runaway: Option<usize>,
 }
+
+/// no operation of the checks comes near this number of system calls
+const RUNAWAY_CALLS: usize = 6000;
 
 impl PolicyMon {
     fn new(deny: &[i64], policy: &Value, sb: &Path) -> Self {
@@ -269,6 +275,7 @@ impl PolicyMon {
             attacks,
             sb: sb.to_path_buf(),
             attack_log: vec![],
+            runaway: None,
         }
     }
 
@@ -284,6 +291,12 @@ impl PolicyMon {
         }
         if self.deny.contains(&nr) {
             return Verdict::Inject(libc::ENOSYS);
+        }
+        if idx >= RUNAWAY_CALLS {
+            if self.runaway.is_none() {
+                self.runaway = Some(idx);
+            }
+            return Verdict::Execute;
         }
         if let Some((at, errno, sticky, only, count)) = &self.fault {
             // calls that cannot fail (or whose failure only trips std's debug
@@ -766,7 +779,11 @@ fn run_job_inner(args: &Args, job: &Value, seq: usize) -> Value {
             }
         }
     }
-    if want_trace {
+    if let Some(r) = mon.runaway {
+        // the operation kept issuing calls for as long as the fault lasted
+        out["runaway"] = json!({"calls_when_the_fault_was_lifted": r, "calls_in_all": trace.events.len()});
+        out["trace"] = json!(trace.events.iter().take(200).collect::<Vec<_>>());
+    } else if want_trace {
         out["trace"] = json!(trace.events);
     } else {
         out["ncalls"] = json!(trace.events.len());
